@@ -567,3 +567,249 @@ def config_entry(repo, run, rule):
         run.violation(rule, fi, 'Config(config_dict, eval_ctx)', '; '.join(bad[:3]))
     else:
         run.ok(rule, fi, 'Config.__init__ evaluated for 5 argument shapes', 'caller\'s context used when given; check_missing on the tree; a deep copy is evaluated; source kept')
+
+
+def errors_constructible(repo, run, rule):
+    """errors.Error.__init__ evaluated for every error class x with / without a second node: the constructor completes (an
+    exception raised while an error is being built would replace the error the property talks about by an unrelated one) and
+    calls the PyYAML base constructor exactly once with the message and the marks of the right nodes"""
+    fi = repo.func('Error.__init__')
+    classes = [c for c in ('ParsingError', 'PreprocessError', 'PremergeError', 'MergeError', 'EvalError', 'UnsafeError') if c in repo.classes]
+    if len(classes) < 5:
+        raise AnalysisError('errors: error classes not found (%s)' % classes)
+    bad = []
+    rows = 0
+    for cls in classes:
+        for with_extra in (False, True):
+            for has_yaml in (True, False):
+                got = []
+                ev = _fde(repo, stubs={'__init__'}, stub=lambda name, recv, args, kwargs: got.append(dict(kwargs)))
+                if cls == 'ParsingError' and (with_extra or not has_yaml):
+                    continue          # parsing errors are about one PyYAML node
+                if cls == 'ParsingError':
+                    node = Obj('ynode', '<yaml node>', start_mark='MARK(node)')
+                    node.missing.update({'_pyyaml_node', '_source_file'})
+                else:
+                    node = node_obj('n', 'ConfigDict', _pyyaml_node=Obj('py', '<yaml node>', start_mark='MARK(node)') if has_yaml else None, _source_file='a.yaml')
+                extra = node_obj('x', 'ConfigDict', _pyyaml_node=Obj('py2', '<yaml node>', start_mark='MARK(extra)') if has_yaml else None, _source_file='b.yaml') if with_extra else None
+                for o_ in (node, extra):
+                    if o_ is not None and o_.cls == 'ConfigDict':
+                        o_.missing.add('start_mark')        # config nodes have no position of their own (only their PyYAML node has)
+                me = Obj('err', cls)
+                try:
+                    r = ev.call(fi, me, '', node, ['p'], extra, 'a note')
+                except Unsupported as e:
+                    raise AnalysisError('Error.__init__: finite-domain evaluator refused: %s' % e)
+                rows += 1
+                what = '%s(%s%s)' % (cls, 'node', ', extra_node' if with_extra else '')
+                if r.raised:
+                    bad.append('%s: building the error raises %s' % (what, r.raised))
+                    continue
+                if len(got) != 1:
+                    bad.append('%s: the base constructor is called %d times' % (what, len(got)))
+                    continue
+                kw = got[0]
+                fallback = lambda o, mark: mark if (has_yaml or cls == 'ParsingError') else None   # noqa: E731
+                if kw.get('note') != 'a note':
+                    bad.append('%s: the note is lost' % what)
+                if not with_extra:
+                    if 'problem' not in kw or kw.get('context') is not None:
+                        bad.append('%s: the message is not passed as the problem' % what)
+                    if (has_yaml or cls == 'ParsingError') and kw.get('problem_mark') != 'MARK(node)':
+                        bad.append('%s: the position reported is %r, expected the position of the node' % (what, kw.get('problem_mark')))
+                else:
+                    if 'context' not in kw:
+                        bad.append('%s: the message is not passed as the context' % what)
+                    if has_yaml and cls != 'ParsingError' and (kw.get('context_mark') != 'MARK(node)' or kw.get('problem_mark') != 'MARK(extra)'):
+                        bad.append('%s: positions reported are %r / %r, expected node / extra node' % (what, kw.get('context_mark'), kw.get('problem_mark')))
+                for attr, want in (('node', node), ('extra_node', extra), ('path', ['p'])):
+                    if me.f.get(attr) is not want and me.f.get(attr) != want:
+                        bad.append('%s: attribute %s of the error is %r' % (what, attr, me.f.get(attr)))
+    if bad:
+        run.violation(rule, fi, 'errors.Error.__init__', '; '.join(sorted(set(bad))[:3]))
+    else:
+        run.ok(rule, fi, 'Error.__init__ evaluated on %d rows (error class x second node x source position known)' % rows, 'never raises; one base-constructor call with message, note and the marks of the nodes involved')
+
+
+def promotion_guard(repo, run, rule):
+    """ConfigNode._replace_self / _replace_other: the survivor is offered for promotion exactly when the caller allows it"""
+    for q in ('ConfigNode._replace_self', 'ConfigNode._replace_other'):
+        fi = repo.func(q)
+        bad = []
+        for allow in (True, False):
+            calls = []
+            promoted = node_obj('promoted', 'ConfigDict')
+
+            def stub(name, recv, args, kwargs, calls=calls, promoted=promoted):
+                calls.append((name, recv.name))
+                return promoted if name == '_maybe_promote' else recv
+            ev = _fde(repo, stubs={'_maybe_promote', '_propagate_implicit_values', '_propagate_priority'}, stub=stub)
+            me, ot = node_obj('self', 'ConfigDict', _metadata={}), node_obj('other', 'ConfigDict', _metadata={})
+            try:
+                r = ev.call(fi, me, ot, allow_promotions=allow)
+            except Unsupported as e:
+                raise AnalysisError('%s: finite-domain evaluator refused: %s' % (q, e))
+            proms = [c for c in calls if c[0] == '_maybe_promote']
+            if r.raised:
+                bad.append('raises %s' % r.raised)
+            elif allow and (len(proms) != 1 or r.ret is not promoted):
+                bad.append('allow_promotions=True: promotion %s, result %s' % ('not attempted' if not proms else 'attempted %d times' % len(proms), getattr(r.ret, 'name', r.ret)))
+            elif not allow and (proms or r.ret is not me):
+                bad.append('allow_promotions=False: %s' % ('a promotion is attempted' if proms else 'the result is %s, not the node itself' % getattr(r.ret, 'name', r.ret)))
+        if bad:
+            run.violation(rule, fi, '%s(other, allow_promotions)' % fi.name, '; '.join(bad))
+        else:
+            run.ok(rule, fi, '%s: promotion attempted iff allowed; the (possibly promoted) survivor is returned' % fi.name)
+
+
+def list_child_store(repo, run, rule):
+    """ConfigList: storing through the node interface (ayns.set_child, used by merging) may append at index == len, storing
+    through the list interface (__setitem__ / _set default) may not; the position handed on is the validated one"""
+    sc = repo.func('ConfigList.ayns.set_child')
+    st = repo.func('ConfigList._set')
+    bad = []
+    for fi, args, kw, want_strict in ((sc, (1, 'v'), {}, False), (st, (1, 'v'), {}, True), (st, (1, 'v'), {'strict': False}, False), (st, (1, 'v'), {'strict': True}, True)):
+        seen = []
+
+        def stub(name, recv, a, k, seen=seen):
+            if name == '_validate_index':
+                seen.append(('validate', tuple(a), dict(k)))
+                return 7          # the validated (normalised) position
+            if name == 'set_child':
+                seen.append(('set_child', tuple(a[-2:]) if len(a) >= 2 else tuple(a)))
+                return a[-1]
+            seen.append((name, tuple(a)))
+            return None
+        ev = _fde(repo, stubs={'_validate_index', 'ComposedNode.ayns.set_child', 'remove_child', 'append', '__setitem__'}, stub=stub)
+        me = node_obj('lst', 'ConfigList', _children={0: 'a', 1: 'b'})
+        try:
+            r = ev.call(fi, me, *args, **kw)
+        except Unsupported as e:
+            raise AnalysisError('%s: finite-domain evaluator refused: %s' % (fi.qualname, e))
+        val = [x for x in seen if x[0] == 'validate']
+        what = '%s(%s%s)' % (fi.qualname.split('.')[-1], ', '.join(map(repr, args)), ''.join(', %s=%r' % kv for kv in kw.items()))
+        if r.raised:
+            bad.append('%s raises %s' % (what, r.raised))
+        elif len(val) != 1 or val[0][1][:1] != (1,):
+            bad.append('%s: the index is not validated exactly once (%s)' % (what, val))
+        else:
+            strict = val[0][2].get('strict', val[0][1][1] if len(val[0][1]) > 1 else True)
+            if strict is not want_strict:
+                bad.append('%s validates the index with strict=%r, expected %r (%s)' % (what, strict, want_strict, 'index == len must append' if not want_strict else 'index == len must be an IndexError'))
+            sets = [x for x in seen if x[0] == 'set_child']
+            if not sets or sets[0][1][0] != 7:
+                bad.append('%s: the child map is updated at %s, expected at the validated position' % (what, sets[0][1][0] if sets else 'no position'))
+    if bad:
+        run.violation(rule, sc, 'ConfigList.ayns.set_child / _set', '; '.join(bad[:3]))
+    else:
+        run.ok(rule, sc, 'ConfigList.ayns.set_child -> _set(strict=False); _set validates with its strict flag (default True) and stores at the validated position')
+
+
+def none_scalar_table(repo, run, rule):
+    """ConfigNone (the payload of a null scalar node) behaves like None: false, equal to None and to another ConfigNone, printed
+    as None, get() gives None; constructed only from None"""
+    bad = []
+    me = Obj('none', 'ConfigNone')
+    other = Obj('none2', 'ConfigNone')
+    def call(name, *a):
+        fi = repo.func('ConfigNone.' + name)
+        ev = _fde(repo)
+        try:
+            return ev.call(fi, *a)
+        except Unsupported as e:
+            raise AnalysisError('ConfigNone.%s: finite-domain evaluator refused: %s' % (name, e))
+    r = call('__bool__', me)
+    if r.raised or r.ret is not False:
+        bad.append('bool(null payload) is %r' % (r.raised or r.ret))
+    for o, want in ((None, True), (other, True), (0, False), ('', False)):
+        r = call('__eq__', me, o)
+        if r.raised or r.ret is not want:
+            bad.append('null payload == %r gives %r, expected %r' % (o, r.raised or r.ret, want))
+    r = call('get', me)
+    if r.raised or r.ret is not None:
+        bad.append('get() gives %r' % (r.raised or r.ret))
+    for name in ('__repr__', '__str__'):
+        r = call(name, me)
+        if r.raised or r.ret != 'None':
+            bad.append('%s gives %r, expected the text of None' % (name, r.raised or r.ret))
+    fi = repo.func('ConfigNone.__bool__')
+    if bad:
+        run.violation(rule, fi, 'ConfigNone', '; '.join(bad[:3]))
+    else:
+        run.ok(rule, fi, 'ConfigNone: false, == None, prints as None, get() is None')
+
+
+def node_init_table(repo, run, rule):
+    """ConfigNode.__init__ evaluated: the explicit arguments are stored as given; an explicit source file wins over the
+    parse-time default, which is used only when none is given; the source-level safe default comes from the parse context;
+    an unknown priority is rejected"""
+    fi = repo.func('ConfigNode.__init__')
+    bad = []
+    for src, ctx_file, ctx_safe in (('own.yaml', 'ctx.yaml', True), (None, 'ctx.yaml', False), (None, None, None), ('own.yaml', None, True)):
+        ev = _fde(repo)
+        fslot = Obj('filename_slot', 'threading.local')
+        sslot = Obj('safe_slot', 'threading.local')
+        if ctx_file is not None:
+            fslot.f['value'] = ctx_file
+        else:
+            fslot.missing.add('value')
+        if ctx_safe is not None:
+            sslot.f['value'] = ctx_safe
+        else:
+            sslot.missing.add('value')
+        ev.class_objs[('ConfigNode', '_default_filename')] = fslot
+        ev.class_objs[('ConfigNode', '_default_safe')] = sslot
+        me = Obj('n', 'ConfigNode')
+        try:
+            r = ev.call(fi, me, idx=3, priority=1, delete=True, allow_new=False, safe=False, metadata={'k': 1}, source_file=src, implicit_delete=False, implicit_allow_new=True, implicit_safe=True, pyyaml_node='PY')
+        except Unsupported as e:
+            raise AnalysisError('ConfigNode.__init__: finite-domain evaluator refused: %s' % e)
+        if r.raised:
+            bad.append('raises %s' % r.raised)
+            continue
+        want = dict(_idx=3, _priority=1, _delete=True, _allow_new=False, _safe=False, _metadata={'k': 1}, _implicit_delete=False, _implicit_allow_new=True, _implicit_safe=True, _pyyaml_node='PY',
+                    _source_file=src if src is not None else ctx_file, _default_safe=ctx_safe if ctx_safe is not None else False)
+        for k, v in want.items():
+            if me.f.get(k, '<unset>') != v:
+                bad.append('%s is %r, expected %r (source_file argument %r, parse context file %r / safe %r)' % (k, me.f.get(k, '<unset>'), v, src, ctx_file, ctx_safe))
+    ev = _fde(repo)
+    ev.class_objs[('ConfigNode', '_default_filename')] = Obj('filename_slot', 'threading.local')
+    ev.class_objs[('ConfigNode', '_default_safe')] = Obj('safe_slot', 'threading.local')
+    try:
+        r = ev.call(fi, Obj('n', 'ConfigNode'), priority=5)
+    except Unsupported as e:
+        raise AnalysisError('ConfigNode.__init__: finite-domain evaluator refused: %s' % e)
+    if r.raised != 'ValueError':
+        bad.append('priority=5 is %s (expected ValueError)' % (r.raised or 'accepted'))
+    if bad:
+        run.violation(rule, fi, 'ConfigNode.__init__', '; '.join(sorted(set(bad))[:3]))
+    else:
+        run.ok(rule, fi, 'ConfigNode.__init__ evaluated on 5 argument / context combinations', 'arguments stored as given; explicit source file over the parse-time one; unknown priority rejected')
+
+
+def list_prefilter_guard(repo, run, rule):
+    """ConfigList.ayns.on_merge_impl: the pre-filter of the newer node runs exactly when that node is a container"""
+    from . import mergetrace as mt
+    fi = repo.func('ConfigList.ayns.on_merge_impl')
+    n = 0
+    bad = []
+    for p in tr.paths_of(repo, fi, no_inline=set(mt.NI), follow_exceptions=False):
+        if p.status != 'return':
+            continue
+        comp = [pol for t, pol in p.facts if t == 'isinstance(other, ComposedNode)']
+        filt = [e for e in p.events if e.kind == 'call' and e.attr == 'filter_nodes']
+        if not comp:
+            if filt:
+                bad.append('the pre-filter runs without the newer node being tested for being a container')
+            continue
+        n += 1
+        if comp[0] and not filt:
+            bad.append('a container replacing the list is not pre-filtered (deleting entries of lower priority would wipe protected ones)')
+        if not comp[0] and filt:
+            bad.append('a leaf value replacing the list is asked to filter its entries')
+    if n == 0:
+        raise AnalysisError('ConfigList.on_merge_impl: no path decides on isinstance(other, ComposedNode)')
+    if bad:
+        run.violation(rule, fi, 'pre-filter guard', '; '.join(sorted(set(bad))))
+    else:
+        run.ok(rule, fi, 'the pre-filter runs iff the newer node is a container (%d paths)' % n)
